@@ -400,7 +400,7 @@ pub fn worker_hist(prop: &str, shard: usize, _nshards: usize, seed: u64, tier: &
     let corpus = gen::corpus();
     let (nhist, len, maxd) = match tier {
         "thorough" => (400, 40, 6u8),
-        _ => (28, 24, 5u8),
+        _ => (50, 24, 5u8),
     };
     let mut rng = Rng::new(seed, 0x6000 + shard as u64);
     for h in 0..nhist {
@@ -548,7 +548,7 @@ pub fn worker_c07(shard: usize, _nshards: usize, seed: u64, tier: &str, out: &mu
     let corpus = gen::corpus();
     let (nsmall, nbig, cap) = match tier {
         "thorough" => (120, 60, 4000u64),
-        _ => (14, 6, 1200u64),
+        _ => (40, 12, 1200u64),
     };
     let mut rng = Rng::new(seed, 0x7000 + shard as u64);
     // fixed special roots (every shard takes a slice)
@@ -1160,7 +1160,7 @@ pub fn worker_c10(shard: usize, nshards: usize, seed: u64, tier: &str, out: &mut
     let corpus = gen::corpus();
     let (ngames, nenum) = match tier {
         "thorough" => (2500u64, 60000u64),
-        _ => (90, 2500),
+        _ => (300, 8000),
     };
     let deep = tier == "thorough";
     let mut rng = Rng::new(seed, 0xA000 + shard as u64);
